@@ -84,7 +84,7 @@ def run_c13(tier, seed):
     try:
         binp = build_harness(wd)
         states, trans, runs, quirks = mc_file(wd, "C13", tier)
-        rounds = {"quick": 8, "thorough": 120}[tier]
+        rounds = {"quick": 8, "thorough": 800}[tier]
         nparts = 4 if tier == "quick" else NCPU // 2
         accepted = total = 0
         samples = []
@@ -128,7 +128,7 @@ def run_c17(tier, seed):
     try:
         binp = build_harness(wd, race=True, name="wverif_race")
         states, trans, runs, _ = mc_file(wd, "C17", tier)
-        rounds = {"quick": 10, "thorough": 150}[tier]
+        rounds = {"quick": 10, "thorough": 600}[tier]
         nparts = 4 if tier == "quick" else NCPU // 2
         acc = tot_lines = 0
         samples = []
